@@ -224,6 +224,19 @@ def run_case(ck, desc):
         for c_ in ("kro", "krw", "krg"):
             df_kr.loc[inside, c_] = 0.0
         ck.count("tables_with_an_immobile_stretch")
+    # the rel-perm table as the lab or the spreadsheet lists it: by increasing GAS saturation (So falling),
+    # shuffled, or two runs appended; the rows are the same rows (the harness's own look-ups sort a copy)
+    df_kr_sorted = pd.DataFrame(df_kr).sort_values("So").reset_index(drop=True)
+    how_kr = int(desc["phi"] * 1e4) % 5
+    if how_kr == 1:
+        df_kr = pd.DataFrame(df_kr).sort_values("Sg").reset_index(drop=True)
+    elif how_kr == 2:
+        df_kr = pd.DataFrame(df_kr).sample(frac=1.0, random_state=int(desc["phi"] * 1e6) % 1000)
+    elif how_kr == 3:
+        d_ = pd.DataFrame(df_kr).reset_index(drop=True)
+        df_kr = pd.concat([d_.iloc[1::2], d_.iloc[0::2]])
+    if how_kr in (1, 2, 3):
+        ck.count("rel_perm_tables_not_listed_by_increasing_So")
     ki = max(2, int(u[0] * (len(P) - 1)))
     p_i = float(P[ki])
     refd = dict(zip(names, dens))
@@ -249,7 +262,7 @@ def run_case(ck, desc):
         if not np.array_equal(got, inner):
             ck.violation("from_table-uses-threephase-pseudopressure", {}, desc)
     So = cols["So"]
-    kr_own = {k: (lambda s, k=k: np.interp(s, np.asarray(df_kr["So"]), np.asarray(df_kr[k]))) for k in ("kro", "krg", "krw")}
+    kr_own = {k: (lambda s, k=k: np.interp(s, np.asarray(df_kr_sorted["So"]), np.asarray(df_kr_sorted[k]))) for k in ("kro", "krg", "krw")}
     pvt_own = {k: (lambda x, k=k: np.interp(x, P, cols[k])) for k in ("Bo", "Bg", "Bw", "Rs", "Rv", "mu_o", "mu_g", "mu_w")}
     lam = _mobility(P, So, pvt_own, kr_own, dens)
     _common(ck, desc, P, lam, got, "from_table")
